@@ -76,3 +76,163 @@ Proof.
   rewrite (uv_roundtrip_gen 10 10 10 0 0 x rest); try lia; [|exact H].
   rewrite N.lor_0_l. change (7 * 0) with 0. rewrite N.shiftl_0_r. reflexivity.
 Qed.
+
+(* ---- the value of a uvarint byte string (low 7 bits of each byte, little endian) ---- *)
+Lemma land127_small b : b < 128 -> N.land b 127 = b.
+Proof. intro H. change 127 with (N.ones 7). rewrite N.land_ones. apply N.mod_small. exact H. Qed.
+
+Lemma group_low a c : N.land (N.lor (N.land a 127) (N.shiftl c 7)) 127 = N.land a 127.
+Proof.
+  apply N.bits_inj; intro n. rewrite !N.land_spec, N.lor_spec, N.land_spec.
+  change 127 with (N.ones 7).
+  destruct (N.ltb_spec n 7) as [H|H].
+  - rewrite N.ones_spec_low by lia. rewrite N.shiftl_spec_low by lia.
+    rewrite !andb_true_r, orb_false_r. reflexivity.
+  - rewrite N.ones_spec_high by lia. rewrite !andb_false_r. reflexivity.
+Qed.
+
+Lemma group_high a c : N.shiftr (N.lor (N.land a 127) (N.shiftl c 7)) 7 = c.
+Proof.
+  apply N.bits_inj; intro n. rewrite N.shiftr_spec', N.lor_spec, N.land_spec.
+  change 127 with (N.ones 7).
+  rewrite N.ones_spec_high by lia. rewrite andb_false_r. cbn [orb].
+  rewrite N.shiftl_spec_high' by lia. f_equal. lia.
+Qed.
+
+(* a continuation byte is its low 7 bits with bit 7 set *)
+Lemma cont_byte c : 128 <= c -> c < 256 -> N.lor (N.land c 127) 128 = c.
+Proof.
+  intros H1 H2.
+  assert (Hd : N.land (N.land c 127) 128 = 0).
+  { rewrite <- N.land_assoc. change (N.land 127 128) with 0. apply N.land_0_r. }
+  rewrite <- N.lxor_lor by exact Hd. rewrite <- N.add_nocarry_lxor by exact Hd.
+  change 127 with (N.ones 7). rewrite N.land_ones. change (2 ^ 7) with 128.
+  replace c with ((c - 128) + 1 * 128) at 1 by lia. rewrite N.mod_add by lia.
+  rewrite N.mod_small by lia. lia.
+Qed.
+
+Fixpoint uv_val (e : bytes) : N :=
+  match e with [] => 0 | b :: t => N.lor (N.land b 127) (N.shiftl (uv_val t) 7) end.
+
+Lemma uv_val_single b : b < 128 -> uv_val [b] = b.
+Proof. intro H. cbn [uv_val]. rewrite N.shiftl_0_l, N.lor_0_r. apply land127_small. exact H. Qed.
+
+(* what ReadUvarint accepts: continuation bytes, then one byte below 128; the value is uv_val of them *)
+Lemma uv_dec_go_shape : forall fuel i acc s l v rest,
+  uv_dec_go fuel i acc s l = Ok (v, rest) ->
+  exists pre b, l = pre ++ b :: rest /\ Forall (fun c => 128 <= c) pre /\ b < 128
+    /\ v = N.lor acc (N.shiftl (uv_val (pre ++ [b])) s).
+Proof.
+  induction fuel as [|f IH]; intros i acc s l v rest H; cbn [uv_dec_go] in H; [discriminate|].
+  destruct l as [|b t]; [destruct (i =? 0); discriminate|].
+  destruct (N.ltb_spec b 128) as [Hb|Hb].
+  - destruct (andb (i =? 9) (1 <? b)); [discriminate|]. injection H as Hv Hr. subst v t.
+    exists [], b. cbn [app]. rewrite uv_val_single by exact Hb.
+    split; [reflexivity|]. split; [constructor|]. split; [exact Hb|reflexivity].
+  - apply IH in H. destruct H as (pre & c & Hl & HF & Hc & Hv). subst t v.
+    exists (b :: pre), c. cbn [app uv_val].
+    split; [reflexivity|]. split; [constructor; assumption|]. split; [exact Hc|].
+    rewrite N.shiftl_lor, N.shiftl_shiftl, N.lor_assoc. replace (7 + s) with (s + 7) by lia. reflexivity.
+Qed.
+
+Lemma uv_dec_shape l v rest : uv_dec l = Ok (v, rest) ->
+  exists pre b, l = pre ++ b :: rest /\ Forall (fun c => 128 <= c) pre /\ b < 128
+    /\ v = uv_val (pre ++ [b]).
+Proof.
+  unfold uv_dec. intro H. apply uv_dec_go_shape in H.
+  destruct H as (pre & b & Hl & HF & Hb & Hv). exists pre, b.
+  rewrite N.lor_0_l, N.shiftl_0_r in Hv. repeat split; assumption.
+Qed.
+
+(* the encoder reproduces a byte string of that shape from its value as soon as the lengths agree *)
+Lemma uv_enc_fuel_canon : forall pre b f,
+  Forall (fun c => 128 <= c) pre -> Forall (fun c => c < 256) pre -> b < 128 ->
+  length (uv_enc_fuel f (uv_val (pre ++ [b]))) = S (length pre) ->
+  uv_enc_fuel f (uv_val (pre ++ [b])) = pre ++ [b].
+Proof.
+  induction pre as [|a pre IH]; intros b f HF HW Hb HL.
+  - cbn [app] in *. rewrite uv_val_single in * by exact Hb.
+    destruct f as [|f]; [cbn in HL; discriminate|]. cbn [uv_enc_fuel].
+    replace (b <? 128) with true by (symmetry; apply N.ltb_lt; exact Hb). reflexivity.
+  - cbn [app uv_val length] in *.
+    destruct f as [|f]; [cbn in HL; discriminate|]. cbn [uv_enc_fuel] in *.
+    destruct (N.ltb_spec (N.lor (N.land a 127) (N.shiftl (uv_val (pre ++ [b])) 7)) 128) as [Hs|Hs].
+    + cbn [length] in HL. lia.
+    + rewrite group_low, group_high in *. cbn [length] in HL.
+      inversion HF as [|a' pre' Ha HF']; subst a' pre'.
+      inversion HW as [|a' pre' Ha2 HW']; subst a' pre'.
+      rewrite cont_byte by assumption. f_equal. apply IH; try assumption. lia.
+Qed.
+
+(* ---- readMinimalUvarint ---- *)
+Lemma uv_dec_min_inv l v rest : uv_dec_min l = Ok (v, rest) ->
+  uv_dec l = Ok (v, rest) /\ (length l - length rest)%nat = length (uv_enc v).
+Proof.
+  unfold uv_dec_min, uv_min_len. destruct (uv_dec l) as [[v' rest']|e]; [|discriminate].
+  destruct (Nat.eqb_spec (length l - length rest') (length (uv_enc v'))) as [E|E]; [|discriminate].
+  intro H. injection H as Hv Hr. subst v' rest'. split; [reflexivity|exact E].
+Qed.
+
+Lemma uv_dec_min_dec l v rest : uv_dec_min l = Ok (v, rest) -> uv_dec l = Ok (v, rest).
+Proof. intro H. apply uv_dec_min_inv in H. apply H. Qed.
+
+Lemma uv_dec_min_err l e : uv_dec l = Err e -> uv_dec_min l = Err e.
+Proof. intro H. unfold uv_dec_min. rewrite H. reflexivity. Qed.
+
+(* on error the minimal reader reports ReadUvarint's error or a header checksum mismatch *)
+Lemma uv_dec_min_err_inv l e : uv_dec_min l = Err e -> uv_dec l = Err e \/ e = HeaderChecksum.
+Proof.
+  unfold uv_dec_min. destruct (uv_dec l) as [[v rest]|e']; [|intro H; left; exact H].
+  destruct (Nat.eqb (length l - length rest) (uv_min_len v)); [discriminate|].
+  intro H. injection H as H. right. symmetry. exact H.
+Qed.
+
+Theorem uv_dec_min_roundtrip x rest : x < 2 ^ 64 -> uv_dec_min (uv_enc x ++ rest) = Ok (x, rest).
+Proof.
+  intro H. unfold uv_dec_min, uv_min_len. rewrite uv_roundtrip by exact H.
+  rewrite app_length. replace (length (uv_enc x) + length rest - length rest)%nat with (length (uv_enc x)) by lia.
+  rewrite Nat.eqb_refl. reflexivity.
+Qed.
+
+(* CANONICITY: the bytes the minimal reader consumes have the length of the minimal encoding of the
+   value, and (being bytes) they ARE the minimal encoding.  The byte-range condition is needed in
+   this model because list elements are unbounded numbers: [1000; 1] decodes like [232; 1]. *)
+Theorem uv_dec_min_consumed l v rest : uv_dec_min l = Ok (v, rest) ->
+  exists e, l = e ++ rest /\ length e = length (uv_enc v)
+    /\ (Forall (fun b => b < 256) e -> e = uv_enc v).
+Proof.
+  intro H. apply uv_dec_min_inv in H. destruct H as [Hd Hlen].
+  apply uv_dec_shape in Hd. destruct Hd as (pre & b & Hl & HF & Hb & Hv).
+  exists (pre ++ [b]). subst l.
+  assert (Hlen' : length (uv_enc v) = S (length pre)).
+  { rewrite <- Hlen. rewrite app_length. cbn [length]. lia. }
+  split; [rewrite <- app_assoc; reflexivity|].
+  split; [rewrite app_length; cbn [length]; lia|].
+  intro HW. apply Forall_app in HW. destruct HW as [HW _].
+  subst v. symmetry. apply uv_enc_fuel_canon; assumption.
+Qed.
+
+Theorem uv_dec_min_canonical l v rest :
+  Forall (fun b => b < 256) l -> uv_dec_min l = Ok (v, rest) -> l = uv_enc v ++ rest.
+Proof.
+  intros HW H. destruct (uv_dec_min_consumed l v rest H) as (e & Hl & _ & He).
+  subst l. apply Forall_app in HW. destruct HW as [HW _]. rewrite <- (He HW). reflexivity.
+Qed.
+
+(* without the byte-range condition the statement is false in the model *)
+Example uv_dec_min_canonical_needs_bytes :
+  uv_dec_min [1000; 1] = Ok (232, []) /\ uv_enc 232 = [232; 1].
+Proof. split; vm_compute; reflexivity. Qed.
+
+(* two accepted encodings of the same value are the same bytes *)
+Corollary uv_dec_min_unique l1 l2 v r1 r2 :
+  Forall (fun b => b < 256) l1 -> Forall (fun b => b < 256) l2 ->
+  uv_dec_min l1 = Ok (v, r1) -> uv_dec_min l2 = Ok (v, r2) ->
+  exists e, l1 = e ++ r1 /\ l2 = e ++ r2.
+Proof.
+  intros W1 W2 H1 H2. exists (uv_enc v).
+  split; apply uv_dec_min_canonical; assumption.
+Qed.
+
+Print Assumptions uv_dec_min_roundtrip.
+Print Assumptions uv_dec_min_canonical.
